@@ -33,6 +33,12 @@ the Violation keys of the replays written (replay = scenario + fault + framework
   M9  protocol.py success(): `if msg.enc_algo:` -> `if False:` (YIELD never encrypted)   -> exit 1; yield:clear-payload-on-the-wire, yield:altered-result-accepted
   M10 cryptobox.py _get_box: no default-key fallback                                    -> exit 1; */originator-sent-clear-although-key-covers-uri, key-selection:not-longest-prefix
   M12 protocol.py INVOCATION: `if enc_err and False:` (endpoint invoked after decrypt failure) -> exit 1; call/yield/error:handler-invoked-despite-fault ... (8)
+  S1  (seeded, /verif/seeded/c20/patch.diff) protocol.py _exception_from_message: `if enc_err: return enc_err` -> `exc = enc_err`
+        (the registry lookup then overwrites the encryption error when the CALLER mapped the envelope error URI to a class)
+        -> exit 1; error:mapped-class-instead-of-encryption-error (replay: default-both, error URI com.app.error.bad mapped by
+        @wamp.error to a class with a compatible constructor, ERROR ciphertext byte 0 xor 1, twisted/json: caller gets
+        MappedErr1() instead of ApplicationError(ENC_DECRYPT_ERROR)); exit 0 on the unchanged tree. Missed before the error
+        direction was run with caller-mapped error URIs (model: onErrorMapped, theorems *_rejected_mapped).
   H1  harmless: `if not (proc == decrypted_proc)`                                        -> exit 0, silent
   H2  harmless: `return key.originator_box if is_originating else key.responder_box`     -> exit 0, silent
 """
@@ -123,6 +129,10 @@ LAYOUTS = {
     "layers-mismatch": (ring(K("Z"), [("com.secret", K("X")), ("com.secret.deep", K("Y"))]),
                         ring(K("Z"), [("com.secret", K("X"))]),
                         [("com.secret.deep.p1", "com.secret.p2")], False),
+    # procedure keys match, the keys for the ERROR namespace do not (wrong key on the reply only)
+    "error-key-mismatch": (ring(None, [("com.secret", K("X")), ("com.errs", K("W"))]),
+                           ring(None, [("com.secret", K("X")), ("com.errs", K("Y"))]),
+                           [("com.secret.p1", "com.secret.p2")], False),
     "wrong-key": (ring(K("X")), ring(K("W")), [("com.app.item1", "com.app.item2")], False),
     "orig-only-both": (ring(K("X", "orig")), ring(K("X", "orig")), [("com.app.item1", "com.app.item2")], False),
     "resp-only-A": (ring(K("X", "resp")), ring(K("X", "resp")), [("com.app.item1", "com.app.item2")], False),
@@ -135,7 +145,13 @@ ERROR_URIS = {
     "default-asym": ["com.app.error.bad"],
     "prefix": ["com.secret.error.bad", "com.other.error", "plain"],
     "layers": ["com.secret.deep.err", "com.secret.err", "plain"],
+    "error-key-mismatch": ["com.errs.bad"],
 }
+# a second error URI (swap / replay target of the envelope) per layout, covered by the same key as the first error URI
+ERROR_URI2 = {"default-both": "com.app.error.other", "default-asym": "com.app.error.other", "prefix": "com.secret.error.other",
+              "layers": "com.secret.deep.other", "error-key-mismatch": "com.errs.other"}
+# the CALLER's error URI -> class registry variants: (how the first / second error URI is registered, constructor kind)
+CALLER_MAPS = [("decor", "explicit", "any"), ("explicit", "decor", "noargs")]
 
 
 def gen_scenarios(ctx, plen_guess=140):
@@ -161,6 +177,16 @@ def gen_scenarios(ctx, plen_guess=140):
                         sc["error_kind"] = "plain" if eu == "plain" else "app"
                         sc["error_uri"] = "wamp.error.runtime_error" if eu == "plain" else eu
                     scs.append(sc)
+                    # the same error exchanges with the error URIs MAPPED to exception classes on the caller
+                    # (decorated / define()d; constructor compatible / incompatible with the payload)
+                    if d == "error" and name in ERROR_URI2 and eu == eus[0] and uris.index((u, u2)) == 0:
+                        for how1, how2, ck in CALLER_MAPS:
+                            tm = [x for x in tampers if x[0] != "garble"] + [["garble", 0, 1], ["garble", 30, 0x80], ["garble", 60, 0xff]]
+                            if sweep and ck == "any":
+                                tm = tampers
+                            scs.append(dict(sc, tampers=tm, error_uri2=ERROR_URI2[name],
+                                            caller_map=[[sc["error_uri"], how1, ck, "MappedErr1"],
+                                                        [ERROR_URI2[name], how2, ck, "MappedErr2"]]))
             # payloads the inner JSON envelope cannot serialise (an aware datetime); only CBOR can carry them at all
             if name in ("default-both", "prefix", "layers", "no-codec-A"):
                 for d in ("pub", "call", "yield", "error"):
@@ -208,7 +234,7 @@ def tamper_tok(t, sc):
     if t[0] == "none":
         return "none"
     if t[0] == "swap":
-        return "swap:" + sc["uri2"]
+        return "swap:" + (sc.get("error_uri2") or sc["uri2"] if sc["dir"] == "error" else sc["uri2"])
     if t[0] in ("algo", "ser"):
         return t[0]
     return "garble"
@@ -218,6 +244,8 @@ def flow_line(sc, t):
     l = f"cb.flow {sc['dir']} {ringtok(sc['ringA'])} {ringtok(sc['ringB'])} {sc['uri']} {1 if sc['bad'] else 0} {tamper_tok(t, sc)}"
     if sc["dir"] == "error":
         l += " " + sc["error_uri"]
+        if sc.get("caller_map"):
+            l += " " + ";".join(f"{u}={c}:{k}" for u, _, k, c in sc["caller_map"])
     return l
 
 
@@ -279,6 +307,8 @@ def observed_view(sc, obs):
             return "pending"
         if oc[0] == "ok":
             return f"result:{args_tok(oc[1]['results'])}:{kw_tok(oc[1]['kwresults'])}"
+        if oc[1] != "ApplicationError":
+            return f"user:{oc[1]}:{args_tok(oc[3])}:{kw_tok(oc[4])}"
         return f"err:{oc[2]}:{args_tok(oc[3])}:{kw_tok(oc[4])}"
     if sc["dir"] == "pub":
         v["R"] = inv or "ignored"
@@ -319,6 +349,8 @@ def model_view(sc, m):
             return f"err:{ENC[o.split(':')[1]]}:text:~"
         if o.startswith("apperror:"):
             return "err:" + o[len("apperror:"):]
+        if o.startswith("usererror:"):
+            return "user:" + o[len("usererror:"):]
         return o
     if "R" in v and v["R"].startswith("ignored"):
         v["R"] = "ignored"
@@ -340,10 +372,10 @@ def model_view(sc, m):
 
 def run(ctx):
     res = core.Result()
-    res.rule = ("scenario = key-ring layout (11: default key both/asymmetric, per-prefix, layered prefixes with default, layered "
+    res.rule = ("scenario = key-ring layout (12: default key both/asymmetric, per-prefix, layered prefixes with default, layered "
                 "with a missing deeper key at B, wrong key, originator-only on both sides, responder-only, no codec at A / at B, "
                 "prefix elsewhere) x URI pairs x direction {publish/event, call/invocation, yield/result, error} x error URI "
-                "{covered, not covered, plain exception} x fault {none, byte alteration, truncation, extension, enc_algo / enc_serializer replaced by another valid identifier, swapped "
+                "{covered, not covered, plain exception; unmapped, or mapped on the CALLER to a decorated / define()d class with a compatible / incompatible constructor} x fault {none, byte alteration, truncation, extension, enc_algo / enc_serializer replaced by another valid identifier, swapped "
                 "envelope via id / via detail / error URI / foreign RESULT payload}; the two sweep layouts alter EVERY byte "
                 "position of the ciphertext (quick: xor 0x01; thorough: 0x01, 0x80, 0xff, random) in every direction; plus "
                 "payloads the inner envelope cannot serialise (CBOR transport). Each exchange runs on "
@@ -402,7 +434,7 @@ def run(ctx):
             lines.setdefault(f"cb.box {ringtok(sc['ringA'])} {role} {u} 0", None)
             lines.setdefault(f"cb.box {ringtok(sc['ringB'])} {role} {u} 0", None)
         if sc["dir"] == "error":
-            for u in (sc["error_uri"], sc["uri2"]):
+            for u in (sc["error_uri"], sc["uri2"], sc.get("error_uri2") or sc["uri2"]):
                 lines.setdefault(f"cb.box {ringtok(sc['ringA'])} o {u} 0", None)
                 lines.setdefault(f"cb.box {ringtok(sc['ringB'])} r {u} 0", None)
     lk_lines = []
@@ -546,15 +578,25 @@ def oracle(sc, t, obs, box):
             else:
                 out.append(("error:reply-clear-although-key-covers-error-uri", f"ERROR {rep}"))
             return out
-        env = sc["uri2"] if t[0] == "swap" else eu
+        env = (sc.get("error_uri2") or sc["uri2"]) if t[0] == "swap" else eu
         kAe = box(sc["ringA"], "o", env)
+        cmap = {u: (c, k) for u, _, k, c in sc.get("caller_map", [])}
         if t[0] == "none" and kAe == kBe:
             want_kw = {} if sc.get("error_kind") == "plain" else {"ek": MARK_K}
-            if not (oc and oc[0] == "err" and oc[2] == eu and args_tok(oc[3]) in ("a", "BAD") and oc[4] == want_kw):
+            if eu in cmap and cmap[eu][1] == "any":
+                # C18: the class the caller registered for the URI, built from exactly the decrypted arguments
+                good = bool(oc and oc[0] == "err" and oc[1] == cmap[eu][0] and args_tok(oc[3]) in ("a", "BAD") and oc[4] == want_kw)
+            else:
+                good = bool(oc and oc[0] == "err" and oc[1] == "ApplicationError" and oc[2] == eu
+                            and args_tok(oc[3]) in ("a", "BAD") and oc[4] == want_kw)
+            if not good:
                 out.append(("error:not-recovered", f"outcome {oc}"))
         else:
-            if not (oc and oc[0] == "err" and oc[2] in ENC.values()):
-                out.append(("error:altered-error-accepted", f"outcome {oc}"))
+            # an explicit encryption error — never the class mapped to the envelope URI, never foreign / empty arguments
+            if not (oc and oc[0] == "err" and oc[1] == "ApplicationError" and oc[2] in ENC.values()):
+                key = "error:mapped-class-instead-of-encryption-error" if (oc and oc[0] == "err" and oc[1] != "ApplicationError") \
+                    else "error:altered-error-accepted"
+                out.append((key, f"envelope error URI {env} (caller maps it to {cmap.get(env)}), fault {t}: call outcome {oc}"))
     if obs["leaks"] and not (d == "error" and rep and not rep["sealed"]):
         out.append((f"{d}:clear-payload-on-the-wire", f"marker strings found in {obs['leaks']}"))
     return out
